@@ -81,9 +81,11 @@ func ValidatePricing(pricing Pricing) error {
 	// p.EndTime > p.StartTime
 	// p[i].StartTime >= p[i-1].EndTime
 	for i, p := range pricing.PromotionsByTime {
-		// times before year 1 cannot be stored
-		if p.StartTime.Year() < 1 || p.EndTime.Year() < 1 {
-			return sdkerrors.Wrapf(ErrInvalidPricing, "invalid timing promotion %d", i)
+		// times before year 1 or after year 9999 (UTC) cannot be stored
+		for _, t := range []time.Time{p.StartTime.UTC(), p.EndTime.UTC()} {
+			if t.Year() < 1 || t.Year() > 9999 {
+				return sdkerrors.Wrapf(ErrInvalidPricing, "invalid timing promotion %d", i)
+			}
 		}
 
 		if !p.EndTime.After(p.StartTime) || (i > 0 && p.StartTime.Before(pricing.PromotionsByTime[i-1].EndTime)) {
